@@ -2,6 +2,8 @@ package main
 
 import (
 	"fmt"
+	"go/ast"
+	"go/parser"
 	"go/token"
 	"go/types"
 	"os"
@@ -10,6 +12,7 @@ import (
 	"strings"
 	"time"
 
+	"golang.org/x/tools/go/packages"
 	"golang.org/x/tools/go/ssa"
 )
 
@@ -320,6 +323,15 @@ func cfCalls(sc *Scenario, toks []cfTok, inner func(string, []SV, *symEval, *sym
 		case strings.HasSuffix(callee, "caddyfile.UnmarshalModule") && len(args) == 2:
 			// reached only when the module id is not one of this program's modules (see Redirect)
 			return symTuple(symNil(), errV("UnmarshalModule")), true
+		case strings.HasSuffix(callee, "caddyhttp.PrivateRangesCIDR") && len(args) == 0 && msgCtx != nil:
+			if xs := depStringList(msgCtx, "github.com/caddyserver/caddy/v2/modules/caddyhttp", "PrivateRangesCIDR"); xs != nil {
+				name := ev.fresh("privateRanges")
+				for i, x := range xs {
+					st.heap[fmt.Sprintf("%s[%d]", name, i)] = symStr(x)
+				}
+				l := symInt(int64(len(xs)))
+				return SV{K: "slice", Desc: name, Len: &l, Cap: &l, Known: true}, true
+			}
 		case callee == "encoding/json.Marshal" && len(args) == 1:
 			return symTuple(SV{K: "slice", Known: true, Desc: "json:" + args[0].Desc}, symNil()), true
 		case strings.HasSuffix(callee, "caddyconfig.JSON") && len(args) == 2:
@@ -695,6 +707,7 @@ type cfTable struct {
 
 func c15Tables(c *Ctx, r *Report, rule string) {
 	r.rule(rule, "Caddyfile option tables: each unmarshaller, evaluated on concrete token sequences with a model of the dispenser (Next/NextArg/NextBlock/Nesting/Val/RemainingArgs/CountRemainingArgs/NextSegment/NewFromNextSegment/NewDispenser as in caddy v2.8.4) and of the module registry (caddyfile.UnmarshalModule(d, id) is the UnmarshalCaddyfile of the type registered under id, evaluated in place on a fresh value; JSON encodings are kept as references to the encoded objects), stores exactly the configuration its documented syntax denotes and rejects what the syntax does not allow", 240)
+	msgCtx = c
 	for _, tb := range cfTables {
 		fn := c.Fn(tb.fn)
 		if fn == nil {
@@ -893,6 +906,8 @@ var cfTables = []cfTable{
 			{"both options", "proxy_protocol {\n allow 10.0.0.0/8 192.168.0.0/16\n timeout 5s\n}", map[string]string{"Allow": `["10.0.0.0/8" "192.168.0.0/16"]`, "Timeout": "5000000000"}},
 			{"allow twice accumulates in order", "proxy_protocol {\n allow 10.0.0.0/8\n allow ::1/128\n}", map[string]string{"Allow": `["10.0.0.0/8" "::1/128"]`, "Timeout": "0"}},
 			{"timeout in days", "proxy_protocol {\n timeout 1d\n}", map[string]string{"Timeout": "86400000000000"}},
+			{"private_ranges shortcut", "proxy_protocol {\n allow private_ranges\n}", map[string]string{"Allow": `["192.168.0.0/16" "172.16.0.0/12" "10.0.0.0/8" "127.0.0.1/8" "fd00::/8" "::1"]`}},
+			{"private_ranges with another range", "proxy_protocol {\n allow 203.0.113.0/24 private_ranges\n}", map[string]string{"Allow": `["203.0.113.0/24" "192.168.0.0/16" "172.16.0.0/12" "10.0.0.0/8" "127.0.0.1/8" "fd00::/8" "::1"]`}},
 			{"timeout twice", "proxy_protocol {\n timeout 5s\n timeout 6s\n}", nil},
 			{"timeout without value", "proxy_protocol {\n timeout\n}", nil},
 			{"timeout with two values", "proxy_protocol {\n timeout 5s 6s\n}", nil},
@@ -1279,4 +1294,73 @@ var cfTables = []cfTable{
 			{"no value", "alpn", nil},
 		},
 	},
+}
+
+// depStringList reads, from the source of a dependency as the build uses it (module cache), the string literals of
+// the slice a parameterless function returns (caddyhttp.PrivateRangesCIDR: the ranges behind the private_ranges
+// shortcut). nil when the function is not found or is not of that shape.
+var depListMemo = map[string][]string{}
+
+func depStringList(c *Ctx, pkgPath, fn string) []string {
+	key := pkgPath + "." + fn
+	if v, ok := depListMemo[key]; ok {
+		return v
+	}
+	depListMemo[key] = nil
+	var files []string
+	seen := map[string]bool{}
+	var walk func(p *packages.Package)
+	walk = func(p *packages.Package) {
+		if p == nil || seen[p.PkgPath] {
+			return
+		}
+		seen[p.PkgPath] = true
+		if p.PkgPath == pkgPath {
+			files = append(files, p.GoFiles...)
+			files = append(files, p.CompiledGoFiles...)
+			return
+		}
+		for _, ip := range p.Imports {
+			walk(ip)
+		}
+	}
+	for _, p := range c.Pkgs {
+		walk(p)
+	}
+	fset := token.NewFileSet()
+	for _, f := range files {
+		af, err := parser.ParseFile(fset, f, nil, 0)
+		if err != nil {
+			continue
+		}
+		for _, d := range af.Decls {
+			fd, ok := d.(*ast.FuncDecl)
+			if !ok || fd.Name.Name != fn || fd.Recv != nil || fd.Body == nil || len(fd.Body.List) != 1 {
+				continue
+			}
+			ret, ok := fd.Body.List[0].(*ast.ReturnStmt)
+			if !ok || len(ret.Results) != 1 {
+				continue
+			}
+			cl, ok := ret.Results[0].(*ast.CompositeLit)
+			if !ok {
+				continue
+			}
+			var out []string
+			for _, el := range cl.Elts {
+				bl, ok := el.(*ast.BasicLit)
+				if !ok || bl.Kind != token.STRING {
+					out = nil
+					break
+				}
+				sv, _ := strconv.Unquote(bl.Value)
+				out = append(out, sv)
+			}
+			if out != nil {
+				depListMemo[key] = out
+				return out
+			}
+		}
+	}
+	return nil
 }
